@@ -105,11 +105,21 @@ def c04_dest(rng: Rng):
     seq = c.seqnext
     h = g.hdr(c, seq)
     n = len(c.data)
-    which = rng.choice(("finished", "nak")) if n > 0 else "finished"
-    s.sm("D", g.md(c, h, msgs=c.msgs))
-    s.drain("D")
+    which = rng.choice(("finished", "nak", "nak-md")) if n > 0 else "finished"
     tiles = g.grid(n, max(1, c.seg_len))
-    lost = set(rng.sample(range(len(tiles)), rng.randrange(1, len(tiles) + 1))) if which == "nak" else set()
+    if which == "nak-md":
+        # the Metadata PDU is lost too: nothing can be stored before it is re-sent, the whole file is
+        # missing when it arrives (File Data PDUs before the EOF may or may not have arrived)
+        lost = set(range(len(tiles)))
+        early = set(rng.sample(range(len(tiles)), rng.randrange(0, len(tiles) + 1))) if rng.chance(0.4) else set()
+        for i in sorted(early):
+            off, ln = tiles[i]
+            s.sm("D", g.fd(h, off, c.data[off:off + ln]))
+            s.drain("D")
+    else:
+        s.sm("D", g.md(c, h, msgs=c.msgs))
+        s.drain("D")
+        lost = set(rng.sample(range(len(tiles)), rng.randrange(1, len(tiles) + 1))) if which == "nak" else set()
     for i, (off, ln) in enumerate(tiles):
         if i in lost:
             continue
@@ -195,8 +205,32 @@ def c04_dest(rng: Rng):
     # tiles arrives (it may close only a part of a gap); the count of consecutive expiries without
     # progress starts again from zero and the timer is restarted
     j_progress = rng.randrange(1, nlim) if (nlim > 1 and len(lost) > 1 and rng.chance(0.6)) else None
+    if which == "nak-md":
+        # the progress is the arrival of the re-requested Metadata PDU, after 0 <= j < limit silent expiries
+        # (the file data is still missing then and the sender falls silent for good)
+        j_progress = rng.randrange(0, nlim) if rng.chance(0.85) else None
     e = 0
     while True:
+        if j_progress is not None and e == j_progress:
+            j_progress = None
+            s.tick(rng.randrange(0, nms))
+            if which == "nak-md":
+                st = s.sm("D", g.md(c, h, msgs=c.msgs))
+            else:
+                i = rng.choice(sorted(lost))
+                lost.discard(i)
+                off, ln = tiles[i]
+                st = s.sm("D", g.fd(h, off, c.data[off:off + ln]))
+            got = s.drain("D")
+            if not st.ok or st.flt or st.nak != 0:
+                f.add("C04:dest:progress-does-not-reset-nak-count",
+                      {"after_expiries": e, "limit": nlim, "counter": st.nak if st.ok else None, "flt": st.flt,
+                       "progress": "metadata" if which == "nak-md" else "file data"}, len(s.ops) - 1)
+                break
+            if any(pdu_kind(p) == "nak" for p in got):
+                f.add("C04:dest:nak-activity-before-expiry", {"pdus": got[:2], "after": "progress"}, len(s.ops) - 1)
+                break
+            e, base = 0, None
         e += 1
         if e > nlim + 1:
             break
@@ -226,23 +260,6 @@ def c04_dest(rng: Rng):
                 f.add("C04:dest:nak-limit-fault-at-Nth-expiry",
                       {"expiry": e, "limit": nlim, "flt": st.flt, "naks": len(naks)}, len(s.ops) - 1)
             break
-        if j_progress is not None and e == j_progress:
-            j_progress = None
-            i = rng.choice(sorted(lost))
-            lost.discard(i)
-            off, ln = tiles[i]
-            s.tick(rng.randrange(0, nms))
-            st = s.sm("D", g.fd(h, off, c.data[off:off + ln]))
-            got = s.drain("D")
-            if not st.ok or st.flt or st.nak != 0:
-                f.add("C04:dest:progress-does-not-reset-nak-count",
-                      {"after_expiries": e, "limit": nlim, "counter": st.nak if st.ok else None, "flt": st.flt},
-                      len(s.ops) - 1)
-                break
-            if any(pdu_kind(p) == "nak" for p in got):
-                f.add("C04:dest:nak-activity-before-expiry", {"pdus": got[:2], "after": "progress"}, len(s.ops) - 1)
-                break
-            e, base = 0, None
     return s, f, c, {"which": which}
 
 
